@@ -7,6 +7,8 @@
 import MptModel.Lemmas.Decode
 import MptModel.Lemmas.DecodeArrive
 import MptModel.Lemmas.DecodeSegs
+import MptModel.Lemmas.DecodeCommandArrive
+import MptModel.Lemmas.DecodePeek
 namespace Mpt.C03
 open Mpt.Cobs Mpt.Codec
 
@@ -87,6 +89,19 @@ theorem honest_segments (v : Variant) (st : DecState) (segs : List Seg) (xs : Li
 example : (arriveSegs .cobs {} [] [⟨true, 3, [3, 0x11]⟩, ⟨true, 0, []⟩, ⟨true, 9, [0x22, 2]⟩, ⟨false, 0, [0x33, 0]⟩]).map
     (fun o => (o.ret, o.region)) = some (.val 1, [0x11, 0x22, 0, 0x33]) := by decide
 
+/-- The command text decoder (`mpt_decode_command`) over every arrival pattern: from a state between two
+    messages with the two bytes of head room its header needs, whatever the pieces in which the text arrives
+    (a call after every arrival, resuming after `0`), the first delivered message is the reference decoding
+    (header ++ text) of the frame at the input position. -/
+theorem cmd_honest (a : Nat) (pieces : List (List Byte)) (st : DecState) (store body junk : List Byte) (o : DecOut)
+    (hlen : st.len - st.msg.getD 0 = 0) (hpos : 2 ≤ st.curr) (hle : st.curr ≤ store.length)
+    (hS : store.drop st.curr ++ pieces.flatten = body ++ 0 :: junk) (hnz : ∀ x ∈ body, x ≠ 0)
+    (h : arriveCmd a st store pieces = some o) (h1 : o.ret = .val 1) : decCmd (body ++ [0]) = some o.region :=
+  arriveCmd_honest a pieces st store body junk o hlen hpos hle hS hnz h h1
+
+example : (arriveCmd 0 { curr := 2 } [0xdd, 0xdd] [[0x68], [], [0x69, 0, 7]]).map (fun o => (o.ret, o.region))
+    = some (.val 1, [0x04, 0x20, 0x68, 0x69]) := by decide
+
 /-- malformed input is never turned into a message: when the reference decoder rejects the frame (zero
     inside a block for the plain framings, leading or doubled delimiter, …) the call does not deliver -/
 theorem no_invention (v : Variant) (st : DecState) (segs : List Seg) (pre junk : List Byte) (hf : Fresh st)
@@ -158,5 +173,30 @@ theorem peek_pure_partial (v : Variant) (st : DecState) (seg : Seg)
     rw [if_neg (by simp; intro h; exact absurd h (by rcases hor with rfl | rfl <;> simp))]
     simp only [hflat]
     rcases hor with rfl | rfl <;> simp
+
+
+/-- What a peek call may change, for a decoder in the middle of a frame (`Hist`: the state stands for a
+    machine run over the bytes `c0 :: U` of the frame consumed so far; `store` is the first segment — peek
+    looks at one segment only).  The call never delivers; `data.pos` and `data.msg` keep their values; the
+    storage keeps its size and everything in front of the end of the decoded data (`pos + len`) — in
+    particular the bytes decoded so far — is untouched; and when it returns 0 it has only moved on inside the
+    open block: `curr` and `len` have grown, the unread input from the new `curr` on is untouched, and the
+    new state stands for the *same* machine run (`Hist` again), so a later normal call continues exactly as
+    if the peek had not happened.  (Stores happen only in `[pos+len, curr_new)`: see `write_behind_read`.) -/
+theorem peek_effect (v : Variant) (c0 : Nat) (U : List Byte) (st : DecState) (store : List Byte) (segs : List Seg)
+    (hflat : flat (segs.take 1) = store) (h : Hist v c0 U st store) :
+    (decodeV v st segs true).ret ≠ .val 1 ∧
+    (decodeV v st segs true).store.length = store.length ∧
+    (decodeV v st segs true).st.pos = st.pos ∧ (decodeV v st segs true).st.msg = st.msg ∧
+    (decodeV v st segs true).store.take (st.pos + st.len) = store.take (st.pos + st.len) ∧
+    ((decodeV v st segs true).ret = .val 0 →
+      Hist v c0 U (decodeV v st segs true).st (decodeV v st segs true).store ∧
+      st.curr ≤ (decodeV v st segs true).st.curr ∧ st.len ≤ (decodeV v st segs true).st.len ∧
+      (decodeV v st segs true).store.drop (decodeV v st segs true).st.curr = store.drop (decodeV v st segs true).st.curr) :=
+  peek_histV v c0 U st store segs hflat h
+
+example : ((decodeV .cobs { ctx := 260, curr := 2, pos := 0, len := 1 } [(0, [0x61, 0xdd, 0x62, 0x63, 0])] true).st,
+           (decodeV .cobs { ctx := 260, curr := 2, pos := 0, len := 1 } [(0, [0x61, 0xdd, 0x62, 0x63, 0])] true).store)
+    = ({ ctx := 3 * 256 + 4, curr := 4, pos := 0, len := 3 }, [0x61, 0x62, 0x63, 0x63, 0]) := by decide
 
 end Mpt.C03
